@@ -151,6 +151,15 @@ class KGUndefined:
     def __str__(self):
         return ":undefined"
 
+    def __reduce__(self):
+        # :undefined is recognised by identity: a copy that travelled through pickle
+        # (IPC, key-value store) must come back as the one KLONG_UNDEFINED object
+        return (_klong_undefined, ())
+
+
+def _klong_undefined():
+    return KLONG_UNDEFINED
+
 
 KLONG_UNDEFINED = KGUndefined()
 
